@@ -91,7 +91,7 @@ def main():
             na.append({"property_id": pid, "reason": "check not built yet in this revision of /verif (planned: see DESIGN.md section 1); not claimed until its check exists and is validated"})
     m = {
         "version": 1,
-        "setup_cmd": "cd harness && CARGO_NET_OFFLINE=true RUSTFLAGS='--cfg neumann_verif' cargo build --release --workspace",
+        "setup_cmd": "./setup.sh",
         "hooks": {
             "guard": "--cfg neumann_verif (rustc cfg flag; no cargo feature)",
             "enable": "RUSTFLAGS='--cfg neumann_verif' (set by ./check and harness/.cargo/config.toml); the harness links /repo crates by path, so every check rebuilds from /repo's working tree",
@@ -110,6 +110,10 @@ def main():
         "notes": "Exit codes: 0 held, 1 VIOLATION, 2 inconclusive (build failure/watchdog). Seeds: VERIF_SEED. known_findings.json lists recorded and fixed defects.",
     }
     json.dump(m, open(os.path.join(HERE, "MANIFEST.json"), "w"), indent=1)
+    pk = " ".join("-p nv_" + c["property_id"].lower() for c in checks)
+    with open(os.path.join(HERE, "setup.sh"), "w") as f:
+        f.write("#!/bin/sh\n# generated by tools/gen_manifest.py: builds the engine and every claimed property crate, offline\nset -e\ncd \"$(dirname \"$0\")/harness\"\nexport CARGO_NET_OFFLINE=true\nexport RUSTFLAGS=\"--cfg neumann_verif\"\nunset CARGO_TARGET_DIR CARGO_ENCODED_RUSTFLAGS CARGO_BUILD_RUSTFLAGS 2>/dev/null || true\nexec cargo build --release " + pk + "\n")
+    os.chmod(os.path.join(HERE, "setup.sh"), 0o755)
     print("checks:", len(checks), "not_applicable:", len(na))
 
 main()
